@@ -498,6 +498,11 @@ func vs(a int, b ...int) int {
 		"u := string(rune(65 + one()))\nr = len(u) + len([]byte(u))",
 		"if a > 5 {\n\tpanic(\"never\")\n}\nr = 1",
 		"delete(m, \"zz\")\ndelete(m, \"k\")\nr = len(m)",
+		"if a > 5 {\n\treturn copy(s, mk())\n}\nr = 2",
+		"if a < 5 {\n\treturn len(append(s, one()))\n}\nr = 2",
+		"if a < 5 {\n\treturn int(float64(one()))\n}\nr = 2",
+		"u := func(p []int, x int) []int {\n\treturn append(p, x)\n}\nr = len(u(s, one()))",
+		"u := func(_ int, _ int, x int) int {\n\ty := x\n\treturn y\n}\nr = u(one(), one(), 3)",
 	}
 	hoods := []string{
 		"%S",
@@ -816,7 +821,7 @@ func c07corpus(r *report.Run) ([]cItem, []bool) {
 }
 
 func c07run(r *report.Run) {
-	r.Rule("abstract states (function, pc, operand-stack depth above the locals) of every function of every corpus program - call-in-every-position enumeration (79 statement forms with calls of 0/1/2 results and blanks x 6 neighbourhoods), fusion-window programs, wide-frame programs (10 statement groups behind 120..300 locals, entered directly and from a caller with as many live locals), C04 forms, C06, C08, C11, C12 corpora and the Go-statement inputs of the repository's test tables - compiled with the optimizer off and on; ALL paths explored; invariants I1 (one depth per pc), I2 (never pops into locals), I3 (branches stay inside the function, never into a nested header/body), I4 (RETURN n at depth n = declared results; body ends at depth 0), I5 (slot operands below the FUNC slot count), I7 (no placeholder survives), I8 (statement-only top level ends at depth 0 / Eval returns nothing); non-trivial = function with at least one branch")
+	r.Rule("abstract states (function, pc, operand-stack depth above the locals) of every function of every corpus program - call-in-every-position enumeration (84 statement forms with calls of 0/1/2 results and blanks x 6 neighbourhoods), fusion-window programs, wide-frame programs (10 statement groups behind 120..300 locals, entered directly and from a caller with as many live locals), C04 forms, C06, C08, C11, C12 corpora and the Go-statement inputs of the repository's test tables - compiled with the optimizer off and on; ALL paths explored; invariants I1 (one depth per pc), I2 (never pops into locals), I3 (branches stay inside the function, never into a nested header/body), I4 (RETURN n at depth n = declared results; body ends at depth 0), I5 (slot operands below the FUNC slot count), I7 (no placeholder survives), I8 (statement-only top level ends at depth 0 / Eval returns nothing); non-trivial = function with at least one branch")
 	r.Assume("opcode table (pops/pushes/successors) read off do.go, validated on every run by replaying the real VM's trace: each executed (pc, depth) must be an abstract state with the same depth", "the instruction list is read from the public WithCodeDump output")
 	items, stmtOnly := c07corpus(r)
 	r.Set("corpus_items", len(items))
